@@ -24,9 +24,11 @@ def walk_submodel(collection: Union[model.Submodel, model.SubmodelElementCollect
     No :class:`SubmodelElements <basyx.aas.model.submodel.SubmodelElement>` should be added, removed or
     moved while iterating, as this could result in undefined behaviour.
     """
-    elements = collection.submodel_element if isinstance(collection, model.Submodel) else collection.value
+    elements = collection.submodel_element if isinstance(collection, model.Submodel) else iter(collection)
     for element in elements:
-        if isinstance(element, (model.SubmodelElementCollection, model.SubmodelElementList)):
+        # descend into everything that contains elements: collections and lists, but also entities (statements),
+        # operations (variables) and annotated relationship elements (annotations)
+        if isinstance(element, model.UniqueIdShortNamespace):
             yield from walk_submodel(element)
         yield element
 
